@@ -15,6 +15,9 @@
 //!   `e`       a lookup service yields an error; the stream arm runs
 //!   `d`       all lookup services end; the stream arm runs
 //!   `n`       the stream arm runs with nothing fed
+//!   `E`       marker (no-op): the history is a compiled history of connection events that
+//!             satisfies the feed hypotheses of EnvTheorems.lean; the oracle then requires the
+//!             environment assumption to hold wherever a resolve starts
 //! model input (I line): the same ops; an op whose `prune_paths` call saw ≥ 2 paths gets
 //!   ` @<ids>` appended: the iteration order of the real `FxHashMap` at that call.
 //! output: per op `A<answers>|P<#paths>|Q<#pending>|L<lookup 0/1>|X<removed ids>` joined by `;`
@@ -89,6 +92,8 @@ enum Op {
     SvcErr,
     Done,
     Poll,
+    /// marker: the history is shaped like the connection handlers (see `gen_env`)
+    EnvShaped,
 }
 
 fn parse_addrs(s: &str) -> Option<Vec<u32>> {
@@ -114,6 +119,7 @@ fn parse_op(s: &str) -> Option<Op> {
         ["e"] => Op::SvcErr,
         ["d"] => Op::Done,
         ["n"] => Op::Poll,
+        ["E"] => Op::EnvShaped,
         _ => return None,
     })
 }
@@ -153,6 +159,7 @@ fn show_op(op: &Op) -> String {
         Op::SvcErr => "e".into(),
         Op::Done => "d".into(),
         Op::Poll => "n".into(),
+        Op::EnvShaped => "E".into(),
     }
 }
 
@@ -322,6 +329,7 @@ impl C22 {
                     }
                 }
                 Op::Poll => polls.push(d.poll_address_lookup()),
+                Op::EnvShaped => {}
             }
             let log = path_state::prune_log_take();
             assert!(log.len() <= 1, "more than one prune_paths call in one handler");
@@ -428,10 +436,11 @@ impl Prop for C22 {
             out.push(finding_shape(31, inactive, true));
         }
         while out.len() < n {
-            let s = match rng.below(20) {
+            let s = match rng.below(24) {
                 0..=8 => gen_small(rng, false),
                 9..=13 => gen_small(rng, true),
                 14..=18 => gen_prune(rng),
+                19..=22 => gen_env(rng),
                 _ => gen_malformed(rng),
             };
             out.push(s);
@@ -497,6 +506,7 @@ impl Prop for C22 {
         let mut env_ok = true; // selected_path ≠ None ⇒ some open path (environment assumption)
         let mut pruned = false;
         let (mut made, mut lost) = (0usize, 0usize);
+        let mut sel_before: Option<u32> = None;
         for (idx, o) in obs.iter().enumerate() {
             for i in &o.dropped {
                 ex.violation("request-dropped", format!("op {idx}: request {i} was dropped without an answer"));
@@ -574,9 +584,12 @@ impl Prop for C22 {
             if o.before.len() > o.after.len() {
                 pruned = true;
             }
-            if o.selected_after.is_some() && !o.after.values().any(|s| *s == St::Open) {
+            // the environment assumption is needed (and proved from the connection handlers,
+            // EnvTheorems) where a resolve handler starts
+            if matches!(o.op, Op::Resolve(_)) && sel_before.is_some() && !o.before.values().any(|s| *s == St::Open) {
                 env_ok = false;
             }
+            sel_before = o.selected_after;
             // internal consistency of the observation
             made += o.new_req.is_some() as usize;
             lost += o.dropped.len();
@@ -605,6 +618,17 @@ impl Prop for C22 {
         }
         if !env_ok {
             ex.tags.push("env-assumption-broken".into());
+            if ops.contains(&Op::EnvShaped) {
+                // EnvTheorems.envOK_invariant: cannot happen in a history of connection events
+                // that satisfies the feed hypotheses
+                ex.violation("env-invariant-broken", "a resolve started with a selected path and no open path in a connection-shaped history");
+            }
+        }
+        if ops.contains(&Op::EnvShaped) {
+            ex.tags.push("connection-shaped".into());
+        }
+        if obs.iter().any(|o| o.selected_after.is_some()) {
+            ex.tags.push("path-selected".into());
         }
         if obs.iter().any(|o| o.answers.iter().any(|(_, a)| *a == Ans::Ok) && o.new_req.is_none()) {
             ex.tags.push("answered-later-ok".into());
@@ -768,6 +792,87 @@ fn gen_prune(rng: &mut Rng) -> String {
             6 => "i -".into(),
             _ => "d".into(),
         });
+    }
+    ops.join(";")
+}
+
+/// Histories shaped like the connection handlers of `RemoteStateActor` (the event model of
+/// lean/IrohModel/C22/Env.lean, compiled to the calls they make on the path state and on
+/// `selected_path`): connection added / path opened / path abandoned / connection closed, each
+/// followed by a `select_path` that keeps the selection or picks a tracked path; the feed
+/// hypotheses of EnvTheorems hold (a connection that loses its last path is closed next; a
+/// path is not abandoned while another connection tracks the same address).  Message and
+/// lookup handlers are interleaved.  In these histories no resolve may be left waiting.
+fn gen_env(rng: &mut Rng) -> String {
+    let k = *rng.pick(&[0usize, 1, 1, 2]);
+    let pool: Vec<u32> = (0..rng.range(3, 10)).map(|_| rng.below(40) as u32).collect();
+    let mut ops = vec![format!("L{k}"), "E".to_string()];
+    // (connection id, tracked (path id, address))
+    let mut conns: Vec<(u32, Vec<(u32, u32)>)> = Vec::new();
+    let mut next_conn = 1u32;
+    let mut next_pid = 1u32;
+    fn select(rng: &mut Rng, conns: &[(u32, Vec<(u32, u32)>)], ops: &mut Vec<String>) {
+        let cands: Vec<u32> = conns.iter().flat_map(|c| c.1.iter().map(|p| p.1)).collect();
+        if !cands.is_empty() && rng.chance(2, 3) {
+            ops.push(format!("s {}", rng.pick(&cands)));
+        }
+    }
+    fn close(conns: &mut Vec<(u32, Vec<(u32, u32)>)>, idx: usize, ops: &mut Vec<String>) {
+        conns.remove(idx);
+        if conns.is_empty() {
+            ops.push("s -".into());
+        }
+    }
+    for _ in 0..rng.range(3, 26) {
+        match rng.below(if k == 0 { 12 } else { 16 }) {
+            0 | 1 => {
+                // connection added, path 0 registered
+                let a = *rng.pick(&pool);
+                ops.push(format!("o {a}"));
+                conns.push((next_conn, vec![(0, a)]));
+                next_conn += 1;
+                select(rng, &conns, &mut ops);
+            }
+            2 | 3 if !conns.is_empty() => {
+                let i = rng.usize_below(conns.len());
+                let a = *rng.pick(&pool);
+                ops.push(format!("o {a}"));
+                conns[i].1.push((next_pid, a));
+                next_pid += 1;
+                select(rng, &conns, &mut ops);
+            }
+            4 | 5 if !conns.is_empty() => {
+                // path abandoned — only if no other connection tracks the same address
+                let i = rng.usize_below(conns.len());
+                let j = rng.usize_below(conns[i].1.len());
+                let a = conns[i].1[j].1;
+                let shared = conns.iter().enumerate().any(|(x, c)| x != i && c.1.iter().any(|p| p.1 == a));
+                if !shared {
+                    conns[i].1.remove(j);
+                    if !conns[i].1.iter().any(|p| p.1 == a) {
+                        if rng.chance(1, 3) {
+                            ops.push(format!("t {}", rng.range(1, 4)));
+                        }
+                        ops.push(format!("a {a}"));
+                    }
+                    select(rng, &conns, &mut ops);
+                    if conns[i].1.is_empty() {
+                        close(&mut conns, i, &mut ops);
+                    }
+                }
+            }
+            6 if !conns.is_empty() => {
+                let i = rng.usize_below(conns.len());
+                close(&mut conns, i, &mut ops);
+            }
+            7..=9 => ops.push(format!("r {}", show_addrs(&pick_addrs(rng, &pool, 3)))),
+            10 => ops.push("n".into()),
+            11 => ops.push(if rng.bool() { "p".into() } else { format!("t {}", rng.below(4)) }),
+            12 | 13 => ops.push(format!("i {}", show_addrs(&pick_addrs(rng, &pool, 3)))),
+            14 => ops.push("d".into()),
+            15 => ops.push(if rng.bool() { "e".to_string() } else { format!("w {}", show_addrs(&pick_addrs(rng, &pool, 2))) }),
+            _ => ops.push(format!("r {}", show_addrs(&pick_addrs(rng, &pool, 2)))),
+        }
     }
     ops.join(";")
 }
